@@ -455,6 +455,10 @@ class Recfile(object):
             # caller's buffer
             dataview = dataview.copy()
             to_native_inplace(dataview)
+        else:
+            # the C code writes the rows as one block starting at the data
+            # pointer: a strided view must be packed first
+            dataview = numpy.ascontiguousarray(dataview)
 
         self.robj.Write(dataview)
 
